@@ -2,3 +2,4 @@
 pub mod universe;
 pub mod proto;
 pub mod runtime;
+pub mod sched;
